@@ -64,8 +64,18 @@ def run_case(c):
     out = {"reduced": red, "full": full, "cone_err": errs, "n": n, "scale": float(max(np.abs(np.asarray(sf[1].fields.E)).max(), 1e-300)),
            "walls": [[int(b.axis), b.direction, type(b).__name__, bool(getattr(b, "_is_symmetry_wall", False))] for b in ocr.boundary_objects]}
     if det:
-        dr = np.asarray(sr[1].detector_states["det"]["fields"]); df = np.asarray(sf[1].detector_states["det"]["fields"])
+        ur = unfold_detector_states(sr[1], ocr, cfgr)
+        dr = np.asarray(ur.detector_states["det"]["fields"]); df = np.asarray(sf[1].detector_states["det"]["fields"])
         out["det_shapes"] = [list(dr.shape), list(df.shape)]
+        derr = []
+        if dr.shape == df.shape:
+            lo = det[axis][0]
+            for t in range(nst):
+                a0, a1 = max(t + 4 - lo, 0), min(2 * n - t - 4 - lo, dr.shape[axis + 2])
+                sl = [t, slice(None), slice(None), slice(None), slice(None)]; sl[axis + 2] = slice(a0, a1)
+                derr.append(float(np.abs(dr[tuple(sl)] - df[tuple(sl)]).max()) if a0 < a1 else 0.0)
+        out["det_err"] = derr
+        out["det_scale"] = float(max(np.abs(df).max(), 1e-300))
     return out
 
 if __name__ == "__main__":
